@@ -40,9 +40,9 @@ package surveyor
 //@
 //@ func (*survey).cancel$1
 //@   before call:close#1 assert !has(sock.surveys, s.id)
-//@   ghost prev = ctx.surv at call:Lock#1
-//@   before call:Unlock#1 assert prev == s ==> ctx.surv == nil
-//@   before call:Unlock#1 assert prev != s ==> ctx.surv == prev
+//@   ghost prev = s.ctx.surv at call:Lock#1
+//@   before call:Unlock#1 assert prev == s ==> s.ctx.surv == nil
+//@   before call:Unlock#1 assert prev != s ==> s.ctx.surv == prev
 //@
 //@ func (*survey).start
 //@   at call:AfterFunc#1 assert expire > 0 && timer_d(result) == expire
